@@ -608,12 +608,13 @@ func (m *Machine) check(cond *Term, label string) {
 	} else if r == Unknown {
 		m.notes = append(m.notes, "check undecided: "+label)
 	}
-	// continue under cond
+	// continue under cond where it can hold; if it fails for every value of this path, keep going without it
+	// so that later assertions of the harness (other properties) are still evaluated
 	if cond.IsConst() {
-		panic(&pathEnd{"stop", "check failed on all values"})
+		return
 	}
 	if m.feasible(cond) == Unsat {
-		panic(&pathEnd{"stop", "check failed on all values"})
+		return
 	}
 	m.assert(cond)
 }
